@@ -352,7 +352,7 @@ def concurrent_leg(chk, impl, model):
     the same time (released together by a barrier): both .gz must carry the CRC/ISIZE of their own file and verify"""
     rng = chk.rng
     thorough = chk.tier == 'thorough'
-    rounds, size = (6, 4 << 20) if thorough else (2, 2 << 20)
+    rounds, size = (6, 4 << 20) if thorough else (2, 1 << 20)
     top = tempfile.mkdtemp(prefix='c08c_', dir='/tmp')
     n = 0
     try:
